@@ -243,6 +243,7 @@ package trace
 //@   assert@call OnEnd#* : !holds(s.mu)
 //@   assert@call recordingSpan.snapshot#* : !holds(s.mu)
 //@   ensures s != nil ==> ends[s] <= old(ends[s]) + 1
+//@   loop#1 invariant s != nil ==> ends[s] <= old(ends[s]) + 1
 
 // ---- attributes of a span (C04)
 //@ func (s *recordingSpan) addDroppedAttr(incr int)
